@@ -96,6 +96,9 @@ class VecEval:
                 return r(args[0])
             if "array<double" in (n.get("t") or "") and args:
                 return tuple(r(a) for a in args)
+            if "array<double, " in (n.get("t") or "") and not args:
+                n_ = int((n.get("t") or "").split("array<double, ")[1].split(">")[0])
+                return tuple(sp.Symbol("uninitialised_%d_%d" % (n.get("i", 0), q)) for q in range(n_))
             raise AnalysisBroken("constructor %s" % norm.render(P, n)[:50])
         if k == "UnaryOperator":
             v = r(c[0])
@@ -293,6 +296,12 @@ class VecEval:
                         self.env[v["r"]] = self.ev(v["c"][0])
                     elif self.is_point_type(v.get("t")):
                         self.env[v["r"]] = None
+                    elif "array<double, " in (v.get("t") or ""):
+                        try:
+                            n_ = int((v.get("t") or "").split("array<double, ")[1].split(">")[0])
+                            self.env[v["r"]] = tuple(sp.Symbol("uninitialised_%s_%d" % (v.get("n"), q)) for q in range(n_))
+                        except Exception:
+                            pass
         elif k == "IfStmt":
             cv = self.ev(s["c"][0])
             t = self.decide(cv, s["c"][0])
